@@ -66,8 +66,10 @@ Lemma del_interface_addr_cache d i : sub_cache (d_cache (fst (del_interface_addr
 Proof.
   unfold del_interface_addr. destruct (intf_get (i_index i) (d_intfs d)) as [m|]; [|apply sub_cache_refl].
   destruct (has_ifaddr _ _); [|apply sub_cache_refl].
-  destruct (is_nil _); simpl; [apply disabled_sub|].
-  destruct (negb (family_enabled _ _)); simpl; [apply disabled_sub|apply sub_cache_refl].
+  destruct (is_nil _).
+  - destruct (holds_ip _ _); simpl; apply disabled_sub.
+  - destruct (negb (family_enabled _ _)); destruct (holds_ip _ _); simpl;
+      first [apply disabled_sub|apply sub_cache_refl].
 Qed.
 
 Lemma apply_cache now tbl : forall d, sub_cache (d_cache (fst (apply_intf_selections now d tbl))) (d_cache d).
@@ -93,7 +95,7 @@ Proof.
   intros [Hin Hgone]. unfold check_ip_changes.
   set (tbl := d_os d).
   set (kept := map _ (d_intfs d)).
-  set (deleted_ips := flat_map _ (d_intfs d)).
+  set (deleted_ips := filter _ (flat_map _ (d_intfs d))).
   set (deleted_intfs := filter _ kept).
   set (d1 := set_intfs kept (d_regs d) d).
   set (d2 := fold_left _ deleted_ips d1).
